@@ -1,6 +1,6 @@
 (* One entry point for the correspondence harness: run_line parses a case, runs the model, prints the answer. *)
 From Coq Require Import List Ascii String Bool Arith ZArith.
-From SV Require Import Lib.Str Lib.Sexp Model.Types Model.Naming Model.Discover Model.Api Model.Back Model.Layout Driver.Codec Driver.ApiCodec.
+From SV Require Import Lib.Str Lib.Sexp Model.Types Model.Naming Model.Discover Model.Api Model.Back Model.Layout Model.FrontSmall Driver.Codec Driver.ApiCodec.
 Import ListNotations.
 
 Definition bad : sexp := L [T"bad-case"].
@@ -65,6 +65,46 @@ Definition run_case (x : sexp) : sexp :=
           match type_string (api_classes a) (api_reexport_map a) nc' t' init_gst with
           | Ok (s, st) => L [T"ok"; A s; of_list A (g_todos st); of_list A (g_imports st); of_list A (g_outside st)]
           | Err e => L [T"err"; sx_of_err e]
+          end
+        | _, _, _ => bad end
+      | _ => bad end
+    else if tag_is "reconcile" cmd then
+      match args with
+      | [pd; w; A fid; L ps; L rs; L rds] =>
+        match sx_bool pd, sx_bool w, sx_list param_of_sx ps, sx_list result_of_sx rs, sx_list rdoc_of_sx rds with
+        | Some pd', Some w', Some ps', Some rs', Some rds' =>
+          let pr := map (reconcile_param pd' w') ps' in
+          let rr := reconcile_results pd' w' fid rs' rds' in
+          L [of_list (fun x : param * bool =>
+                        L [of_opt (fun t => sx_of_jv (to_dict t)) (p_type (fst x)); of_bool (p_optional (fst x));
+                           match p_default (fst x) with
+                           | DNone => L [T"none"] | DStr v => L [T"s"; A v] | DBool b => L [T"b"; of_bool b]
+                           | DInt z => L [T"i"; of_Z z] | DFloat r => L [T"f"; A r] | DUnknown => L [T"u"]
+                           end]) pr;
+             of_nat (List.length (filter (fun x : param * bool => snd x) pr));
+             of_list (fun r : result => L [A (r_id r); A (r_name r); of_opt (fun t => sx_of_jv (to_dict t)) (r_type r)]) (fst rr);
+             of_nat (snd rr)]
+        | _, _, _, _, _ => bad end
+      | _ => bad end
+    else if tag_is "container" cmd then
+      match args with
+      | [L ops] =>
+        match sx_list (fun y => match y with L [A k; A v] => Some (k, v) | _ => None end) ops with
+        | Some ops' => of_list (fun kv : str * str => L [A (fst kv); A (snd kv)]) (sorted_entries (add_all ops'))
+        | None => bad end
+      | _ => bad end
+    else if tag_is "arg_kind" cmd then
+      match args with
+      | [r; po; A k] =>
+        let kind := if tag_is "ARG_POS" k then Some ARG_POS else if tag_is "ARG_OPT" k then Some ARG_OPT
+                    else if tag_is "ARG_STAR" k then Some ARG_STAR else if tag_is "ARG_NAMED" k then Some ARG_NAMED
+                    else if tag_is "ARG_STAR2" k then Some ARG_STAR2 else if tag_is "ARG_NAMED_OPT" k then Some ARG_NAMED_OPT else None in
+        match sx_bool r, sx_bool po, kind with
+        | Some r', Some po', Some k' =>
+          match get_argument_kind r' po' k' with
+          | Some IMPLICIT => T"IMPLICIT" | Some POSITION_ONLY => T"POSITION_ONLY" | Some POSITION_OR_NAME => T"POSITION_OR_NAME"
+          | Some POSITIONAL_VARARG => T"POSITIONAL_VARARG" | Some NAME_ONLY => T"NAME_ONLY" | Some NAMED_VARARG => T"NAMED_VARARG"
+          | None => T"ValueError"
           end
         | _, _, _ => bad end
       | _ => bad end
